@@ -142,7 +142,11 @@ func runLSHScenario(o *Opts, res *Result, sc *lshScenario, tag string, full bool
 		wasLive := live[op.ID]
 		switch op.K {
 		case "add":
-			c.AddDocument(op.ID, op.Vec, []byte(fmt.Sprintf(`{"n":%d}`, i)))
+			md := []byte(fmt.Sprintf(`{"n":%d}`, i))
+			if i%7 == 3 {
+				md = nil // documents without metadata take part in filtered searches like any other
+			}
+			c.AddDocument(op.ID, op.Vec, md)
 			live[op.ID] = true
 		case "upd":
 			if live[op.ID] {
